@@ -84,6 +84,7 @@ func (w *worker) run(ctx context.Context, events chan<- *model.Event) error {
 		recs := make([]*model.Record, 0, w.recsPerEvent)
 		for ctx.Err() == nil && err == nil {
 			var rec *model.Record
+			untilEof := atomic.LoadInt32(&w.state) == wsRunUntilEof
 			rec, err = w.parser.NextRecord(ctx)
 			if rec != nil {
 				recs = append(recs, rec)
@@ -95,7 +96,7 @@ func (w *worker) run(ctx context.Context, events chan<- *model.Event) error {
 				recs = w.recycle(recs)
 			}
 
-			if eof && atomic.LoadInt32(&w.state) == wsRunUntilEof && err == nil {
+			if eof && untilEof && err == nil {
 				w.logger.Info("EOF reached!")
 				err = io.EOF
 			}
